@@ -235,6 +235,8 @@ def check_C12(res, ctx):
     for i in range(ndb):
         rng = rng_for(ctx.seed, "C12", i)
         corrupt.check_db(res, ctx, rng, "merged" if i % 3 == 2 else "plain", 4000 if ctx.quick else 40000)
+    for i in range(1 if ctx.quick else 6):
+        corrupt.check_db(res, ctx, rng_for(ctx.seed, "C12m", i), "multiblock", 0)
     for i in range(4 if ctx.quick else 60):
         corrupt.random_damage(res, ctx, rng_for(ctx.seed, "C12r", i), i)
     return "every single-bit flip of every byte of the data / hint / marker files of small databases (exhaustive unless counted under files_sampled), " \
